@@ -149,7 +149,7 @@ def run(ck: Check):
     rng = ck.rng
     thorough = ck.tier == "thorough"
     ck.rule(
-        "non-negative streams with one to three mean shifts / constants / noise / cancellation-prone magnitudes, m in {1,2,3,5}, clock in {1,2,4,32}, "
+        "non-negative streams with one to three mean shifts / constants / noise / cancellation-prone magnitudes, m in {1,2,3,5} (and 16/32 with clock 1: single-value drops), clock in {1,2,4,8,32} (long runs followed past the first cut), "
         "runs continue after detections; a third of the histories contain one or two reset() calls in mid-stream (the window must be empty after it and exact again afterwards); after EVERY update the implementation's window is recomputed from the raw stream; non-trivial = the window shrank at least once"
     )
     cases, impl = [], []
@@ -166,6 +166,27 @@ def run(ck: Check):
             cfg = gen_cfg(rng)
             n = rng.choice([30, 60, 120, 200])
             xs = gen_adwin_stream(rng, n)
+            r = rng.random()
+            if r < 0.12:
+                # wide rows: the whole window can sit in row 0, a check may then drop a single value
+                cfg["m"] = rng.choice([16, 32])
+                cfg["clock"] = 1
+                cfg["min_num_instances"] = rng.choice([1, 3, 5])
+                cfg["min_window_size"] = 1
+                cfg["delta"] = rng.choice([0.5, 0.9])
+                n = rng.choice([60, 120])
+                k = rng.randrange(8, 30)
+                xs = [abs(rng.gauss(0.2, 0.02)) for _ in range(k)] + [abs(rng.gauss(0.9, 0.02)) for _ in range(n - k)]
+            elif r < 0.24:
+                # a slow clock followed PAST the first cut: abrupt shifts make the cut reach into buckets smaller
+                # than the clock, so width and update count fall out of phase
+                cfg["clock"] = rng.choice([4, 8, 32])
+                cfg["m"] = rng.choice([2, 5])
+                cfg["delta"] = rng.choice([0.002, 0.05])
+                cfg["min_num_instances"] = rng.choice([5, 10])
+                n = rng.choice([400, 640])
+                a1, a2 = sorted(rng.sample(range(n // 5, n - 40), 2))
+                xs = [abs(rng.gauss(0.2 if (i < a1 or i >= a2) else 0.9, 0.05)) for i in range(n)]
             if cfg["m"] == 1 and rng.random() < 0.5:
                 # binary-counter shaped windows: staircase stream checked once at an odd length
                 cfg["clock"] = rng.choice([23, 39, 47, 55, 87, 95])
@@ -186,7 +207,7 @@ def run(ck: Check):
         ck.case(dict(config=cfg, n=n, head=xs[:6], shrinks=nshrink, resets=xs.count("R")), nontrivial=nshrink > 0, key=repr((cfg, xs)))
         ck.count("updates", len(trace))
         ck.count("shrinking_updates", nshrink)
-        if ok:
+        if ok and len(xs) <= 220:
             cases.append((DET, cfg, xs, None))
             impl.append(trace)
     models = run_models("C05", cases, shard=12)
